@@ -121,6 +121,31 @@ def build(spec):
         layers = eqx.filter_vmap(make_layer)(jr.split(jr.PRNGKey(seed), L))
         sc = B.Scan(layers)
         return D.Transformed(base, B.Invert(sc) if spec.get("invert", True) else sc)
+    if kind == "container":
+        v = spec["variant"]
+        aff = lambda d: B.Affine(f32(r.normal(size=d) * 0.3), f32(_loguniform(r, 0.5, 2.0, d)))  # noqa: E731
+        if v == "concat":
+            bij = B.Concatenate([aff(1), B.Scale(f32(_loguniform(r, 0.5, 2.0, max(dim - 1, 1))))])
+            shape = (1 + max(dim - 1, 1),)
+        elif v == "stack":
+            bij = B.Stack([aff(dim), B.Chain([B.Tanh((dim,)), aff(dim)])])
+            shape = (2, dim)
+        elif v == "partial":
+            bij = B.Partial(aff(2), jnp.array([0, dim]), (dim + 1,))
+            shape = (dim + 1,)
+        elif v == "reshape":
+            bij = B.Reshape(aff(2 * dim), (2, dim))
+            shape = (2, dim)
+        elif v == "embed":
+            inner = B.Planar(jr.PRNGKey(seed), dim=dim, cond_dim=2, negative_slope=0.1, width_size=2, depth=0)
+            bij = B.Invert(B.EmbedCondition(inner, eqx.nn.Linear(3, 2, key=jr.PRNGKey(seed + 1)), (3,)))
+            shape = (dim,)
+        elif v == "additive":
+            bij = B.Chain([aff(dim), B.AdditiveCondition(eqx.nn.Linear(2, dim, use_bias=False, key=jr.PRNGKey(seed)), (dim,), (2,))])
+            shape = (dim,)
+        else:
+            raise KeyError(v)
+        return D.Transformed(D.StandardNormal(shape), bij)
     if kind == "flow":
         key = jr.PRNGKey(seed)
         tr = None
@@ -129,6 +154,16 @@ def build(spec):
             tr = B.RationalQuadraticSpline(knots=spec.get("knots", 4), interval=(float(iv[0]), float(iv[1])),
                                            min_derivative=spec.get("min_derivative", 1e-3),
                                            softmax_adjust=spec.get("softmax_adjust", 1e-2))
+        if spec.get("transformer") == "affine_frozen_loc":
+            # a user-supplied transformer with a frozen part: the conditioner must not parameterise it
+            from flowjax.wrappers import NonTrainable
+
+            tr = eqx.tree_at(lambda a: a.loc, B.Affine(jnp.asarray(0.25), jnp.asarray(1.5)), replace_fn=NonTrainable)
+        if spec.get("transformer") == "spline_frozen_derivs":
+            from flowjax.wrappers import non_trainable
+
+            tr = B.RationalQuadraticSpline(knots=3, interval=(-3.0, 3.0))
+            tr = eqx.tree_at(lambda t: t.derivatives, tr, replace_fn=non_trainable)
         common = dict(base_dist=base, cond_dim=spec.get("cond_dim"), flow_layers=spec.get("layers", 2), invert=spec.get("invert", True))
         if spec["flow"] == "coupling":
             return F.coupling_flow(key, transformer=tr, nn_width=spec.get("width", 4), nn_depth=spec.get("depth", 1), **common)
@@ -201,4 +236,8 @@ def model_dims(spec):
         if spec["name"] == "MultivariateNormal":
             d = max(d, 1)
         return ((d,) if d else ()), None
+    if spec["kind"] == "container":
+        d, v = spec.get("dim", 2), spec["variant"]
+        shape = {"concat": (1 + max(d - 1, 1),), "stack": (2, d), "partial": (d + 1,), "reshape": (2, d), "embed": (d,), "additive": (d,)}[v]
+        return shape, {"embed": 3, "additive": 2}.get(v)
     return (spec.get("dim", 2),), spec.get("cond_dim")
